@@ -187,3 +187,29 @@ claim("C20",
            "Known finding off-face-count-prefix is modelled as Dev_OffFaceCountPrefix so that the rest of each OFF file is still read.",
       technique="TLA+ trace validation: file token traces checked by TLC against format reader machines",
       design_ref="DESIGN.md 5 C20")
+
+
+claim("C11",
+      text="For every convex lattice polytope of spec/Convex3.tla TLC emits the integrated mean curvature as an exact symbolic "
+           "term (sum over the hull edges of sqrt(|e|^2) * acos(n1.n2/(|n1||n2|)) / (8 pi) from the primitive integer facet "
+           "normals) and the Steiner polynomials, tau, asphericity and iq as terms over V, S, M and r; convex polygons of "
+           "spec/Polygon2.tla give A + P r + pi r^2 and P + 2 pi r; each is replayed into ConvexPolyhedron (mean_curvature, "
+           "tau, asphericity, iq, get_dihedral), ConvexSpheropolyhedron (volume, surface_area, mean_curvature) and "
+           "ConvexSpheropolygon (area, signed_area, perimeter; both normals) for radii 0 and 1e-3..1e2 core sizes under "
+           "rational placements incl. scales 1e-6..1e3.",
+      note="Irrational terms are evaluated by vh/terms.py in double precision. Closed-form cross-check: axis-aligned boxes give "
+           "acos(0) terms, i.e. M = (a+b+c)/4.",
+      technique="TLA+ model checking (TLC) emitting exact symbolic terms + spec-to-code replay",
+      design_ref="DESIGN.md 5 C11")
+
+claim("C13",
+      text="TLC decides exactly per state of spec/Convex3.tla / spec/Polygon2.tla whether a circum-ball exists (lifted integer "
+           "determinant: cospherical / concyclic) and emits the exact centred balls (centre = exact centroid; max squared "
+           "vertex distance; min facet/edge distance as a min-term), and from spec/Curved.tla the largest/smallest semi-axis; "
+           "replayed into Polygon, ConvexPolygon, Polyhedron, ConvexPolyhedron, Circle, Ellipse, Sphere, Ellipsoid under "
+           "rational placements (scales 1e-3..1e3). Minimal bounding balls are judged by the definition (encloses every exact "
+           "vertex; centre in the hull of the touched vertices), in-balls a posteriori against the exact face planes / edges.",
+      note="Not decided exactly: existence of in-balls (irrational normal lengths) - a RuntimeError is contested only when an "
+           "independent tangency solve finds a ball; exact rational miniball arithmetic does not fit TLC's 32-bit integers.",
+      technique="TLA+ model checking (TLC) of exact existence predicates and centred balls + spec-to-code replay + definitional certificates",
+      design_ref="DESIGN.md 5 C13")
